@@ -742,7 +742,13 @@ def run(ctx):
     rng = ctx.rng
     state = dict(viol=0, f13=0, f14=0)
 
+    reported = set()
+
     def report(obj, finding_key=None, no_input=False):
+        sig = json.dumps(obj, sort_keys=True, default=str)
+        if sig in reported:
+            return
+        reported.add(sig)
         state["viol"] += 1
         if finding_key == "F13":
             state["f13"] += 1
@@ -838,7 +844,8 @@ def run(ctx):
         if len(samples) < 6 and origin[i] == "gen" and i % 97 == 0:
             samples.append({"case": c, "source": qv_call(op, args), "impl": got, "model": model[i]})
         # ---- F13: narrow match
-        f13 = op in F13_OPS and args[0] is None and got == "(err TypeMismatch)"
+        # (same compiler defect: in `denom`, nil passes the last clause `='int => 1`)
+        f13 = args[0] is None and ((op in F13_OPS and got == "(err TypeMismatch)") or (op == "denom" and got == "(ok (i 1))"))
         # ---- impl-level oracle (well-formed operands only)
         oracle_bad = None
         if well:
